@@ -97,7 +97,7 @@ def gen_value(rnd, depth=0):
             v = rnd.choice(['s', 'a b', 'x;y', 'q}', "it's", 'é', '/*c*/'])
             comps.append(Comp('STRING', v, '"%s"' % v))
         elif k == 'url':
-            v = rnd.choice(['a.png', 'img/b c.gif', 'http://h/x?y=1&z', 'é.png'])
+            v = rnd.choice(['a.png', 'img/b c.gif', 'http://h/x?y=1&z', 'é.png', '\xa0x.png', 'y.gif\u3000'])
             comps.append(Comp('URI', v, 'url("%s")' % v))
         elif k == 'hash':
             comps.append(Comp('COLOR_VALUE', rnd.choice(COLORS)))
@@ -739,16 +739,45 @@ def merged_margins(margins):
     return out
 
 
-def expected_shape(rules):
-    """what can be told by construction: kinds in order, selector count and specificity, names / component kinds /
-    priorities of declarations, media queries, hrefs, prefixes and URIs"""
+ANYNS = -1          # css_parser._ANYNS
+
+
+def expected_pairs(sel, nsmap):
+    """the (namespace URI, local name) pairs a selector binds, by construction: an element name without prefix is in the
+    default namespace if one is declared, `|e` in none, `*|e` in any, `p|e` in the URI p denotes; an attribute without
+    prefix is in no namespace; the same inside :not()"""
+    out = []
+
+    def simple(x):
+        k = x[0]
+        if k in ('type', 'univ'):
+            ns = x[1]
+            uri = nsmap.get('', None) if ns is None else ANYNS if ns == '*' else '' if ns == '' else nsmap[ns]
+            out.append((uri, x[2] if k == 'type' else '*'))
+        elif k == 'attr':
+            ns = x[1]
+            if ns not in (None, ''):          # (an attribute in no namespace is stored as a plain name)
+                out.append((nsmap[ns], x[2]))
+        elif k == 'not':
+            simple(x[1])
+    for _, comp in sel:
+        for x in comp:
+            simple(x)
+    return out
+
+
+def expected_shape(rules, nsmap=None):
+    """what can be told by construction: kinds in order, selector count, specificity and (URI, name) pairs, names /
+    component kinds / priorities of declarations, media queries, hrefs, prefixes and URIs"""
+    if nsmap is None:
+        nsmap = {r[1]: r[2] for r in rules if r[0] == 'namespace'}
     out = []
     for r in rules:
         k = r[0]
         if k == 'style':
-            out.append(('style', [(0,) + specificity(sel) for sel in r[1]], expected_decls(r[2])))
+            out.append(('style', [((0,) + specificity(sel), expected_pairs(sel, nsmap)) for sel in r[1]], expected_decls(r[2])))
         elif k == 'media':
-            out.append(('media', list(r[1]), expected_shape(r[2])))
+            out.append(('media', list(r[1]), expected_shape(r[2], nsmap)))
         elif k == 'page':
             out.append(('page', r[1], expected_decls(r[2]), [(m, expected_decls(d)) for m, d in merged_margins(r[3])]))
         elif k == 'fontface':
@@ -771,7 +800,7 @@ def shape_of_model(model):
             return [(n, [c[0] if c[0] not in ('FUNCTION', 'CALC') and not isinstance(c[0], int) else c[0] for c in v
                          if c[0] not in ('operator', 'CHAR')], p) for n, v, p in d]
         if k == 'style':
-            out.append(('style', [s[1] for s in m[1]], ds(m[2])))
+            out.append(('style', [(s[1], [tuple(v) for t, v in s[0] if isinstance(v, tuple)]) for s in m[1]], ds(m[2])))
         elif k == 'media':
             out.append(('media', list(m[1]), shape_of_model(m[2])))
         elif k == 'import':
